@@ -48,7 +48,7 @@ def kindName : BondKind → String
   | .aromatic => "aromatic" | .zero => "zero" | .dative => "dative" | .other => "other" | .misc => "misc"
 
 def readErrName : ReadErr → String
-  | .reader => "reader" | .notImplemented => "notImplemented" | .shape => "shape" | .internal => "internal"
+  | .reader => "reader" | .notImplemented => "notImplemented" | .shape => "shape"
 
 def schemeSrc (j : Json) : Except String Decompose.SchemeSrc := do
   let cs ← (← arr j "centres").toList.mapM fun c => do
